@@ -59,6 +59,18 @@ type scase struct {
 	// Noncanon: the script file is valid but not in the form Format writes (a
 	// padded marker line, no final newline after the last entry)
 	Noncanon bool `json:"noncanon,omitempty"`
+	// CaseTwin: later entries G0, G1, ... whose names differ from the goldens'
+	// only in the case of a letter (different files on this platform)
+	CaseTwin bool `json:"case_twin,omitempty"`
+	// Old: what a mismatching golden entry holds before the run (default "OLD\n")
+	Old string `json:"old,omitempty"`
+}
+
+func oldOf(c scase) string {
+	if c.Old != "" {
+		return c.Old
+	}
+	return oldGolden
 }
 
 // entryName is the name of the i-th golden entry as written in the archive.
@@ -108,6 +120,12 @@ func (c scase) String() string {
 	if c.Noncanon {
 		p = append(p, "script-not-in-Format's-form")
 	}
+	if c.CaseTwin {
+		p = append(p, "entries-G<i>-beside-g<i>")
+	}
+	if c.Old != "" {
+		p = append(p, fmt.Sprintf("old-golden-content:%q", c.Old))
+	}
 	for _, l := range c.Lines {
 		m := "mismatch"
 		if l.Match {
@@ -153,13 +171,13 @@ func build(c scase) (string, bool) {
 	}
 	for i, l := range c.Lines {
 		g := goldenName(c, i)
-		golden := oldGolden
+		golden := oldOf(c)
 		if l.Match {
 			if !representable(contents[l.Content]) || hasMarker(contents[l.Content]) {
 				return "", false // a golden entry cannot hold this content verbatim
 			}
 			golden = contents[l.Content]
-		} else if contents[l.Content] == oldGolden {
+		} else if contents[l.Content] == oldGolden || contents[l.Content] == c.Old {
 			return "", false
 		}
 		switch l.Kind {
@@ -187,6 +205,11 @@ func build(c scase) (string, bool) {
 		files = append(files, txtar.File{Name: fmt.Sprintf("mid%d", i), Data: []byte(fmt.Sprintf("untouched %d\n> keep\n", i))})
 	}
 	files = append(files, txtar.File{Name: "sub/keep", Data: nil}, txtar.File{Name: "post", Data: []byte("untouched post\n")})
+	if c.CaseTwin {
+		for i := range c.Lines {
+			files = append(files, txtar.File{Name: strings.ToUpper(entryName(c, i)), Data: []byte(fmt.Sprintf("TWIN %d\n", i))})
+		}
+	}
 	if c.Again {
 		l := c.Lines[0]
 		switch l.Kind {
@@ -592,6 +615,26 @@ func realMain() {
 		cases = append(cases, scase{Lines: []cmpLine{a}, Noncanon: true})
 		for _, b := range dupLines {
 			cases = append(cases, scase{Lines: []cmpLine{a, b}, Noncanon: true})
+		}
+	}
+	// entries whose names differ only in case; goldens whose old content looks
+	// quoted, is empty, or lacks its final newline
+	for _, a := range dupLines {
+		cases = append(cases, scase{Lines: []cmpLine{a}, CaseTwin: true})
+		for _, b := range dupLines {
+			cases = append(cases, scase{Lines: []cmpLine{a, b}, CaseTwin: true})
+		}
+	}
+	for _, old := range []string{">OLD\n", ">\n", ">a\n>-- m --\n", " \n", "OLD"} {
+		for ci := range contents {
+			for _, k := range []string{"stdout", "file"} {
+				cases = append(cases, scase{Lines: []cmpLine{{k, ci, false}}, Old: old})
+			}
+		}
+		for _, a := range dupLines {
+			for _, b := range dupLines {
+				cases = append(cases, scase{Lines: []cmpLine{a, b}, Old: old})
+			}
 		}
 	}
 	// the work-directory root given as a relative path
